@@ -76,14 +76,30 @@ struct Inputs {
     bmesh: Option<(MbmhChunk, MbbbChunk, MbnvChunk, MbmiChunk)>,
 }
 
-fn names(n: usize, dir: &str, ext: &str, r: &mut Rng) -> Vec<String> {
-    (0..n)
+/// `n` names; `dup` is the multiplicity pattern of the list (element multiplicity is part of a list):
+/// "none" all distinct, "first2" first = second, "firstlast" first = last, "all" all equal.
+fn names(n: usize, dir: &str, ext: &str, dup: &str, r: &mut Rng) -> Vec<String> {
+    let mut v: Vec<String> = (0..n)
         .map(|i| {
             // differing lengths so that string-table offsets are not a multiple of anything
             let pad = "x".repeat(1 + r.below(9) as usize);
             format!("{dir}/n{i}_{:05x}{pad}.{ext}", r.below(1 << 20))
         })
-        .collect()
+        .collect();
+    if n >= 2 {
+        match dup {
+            "none" => {}
+            "first2" => v[1] = v[0].clone(),
+            "firstlast" => v[n - 1] = v[0].clone(),
+            "all" => {
+                for i in 1..n {
+                    v[i] = v[0].clone();
+                }
+            }
+            o => tool_error(&format!("unknown dup pattern {o}")),
+        }
+    }
+    v
 }
 
 /// One liquid layer from a configuration index k in 0..64 (the product the specification enumerates,
@@ -313,14 +329,14 @@ fn mcnk(c: &Value, ix: u32, iy: u32, opt: bool, r: &mut Rng) -> McnkChunk {
 fn make_inputs(c: &Value, case: &str) -> Inputs {
     let mut r = Rng::derive(seed(), case);
     let version = VERSIONS[gi(c, "ver") as usize];
-    let textures = names(gi(c, "ntex") as usize, "tileset/zone", "blp", &mut r);
-    let models = names(gi(c, "nmdl") as usize, "world/doodad", "m2", &mut r);
-    let wmos = names(gi(c, "nwmo") as usize, "world/wmo/b", "wmo", &mut r);
+    let textures = names(gi(c, "ntex") as usize, "tileset/zone", "blp", gs(c, "dtex"), &mut r);
+    let models = names(gi(c, "nmdl") as usize, "world/doodad", "m2", gs(c, "dmdl"), &mut r);
+    let wmos = names(gi(c, "nwmo") as usize, "world/wmo/b", "wmo", gs(c, "dwmo"), &mut r);
     let nm = models.len().max(1) as u64;
     let nw = wmos.len().max(1) as u64;
     let ddf = (0..gi(c, "nddf"))
         .map(|i| DoodadPlacement {
-            name_id: r.below(nm) as u32,
+            name_id: ((nm - 1 - (i as u64 % nm)) % nm) as u32, // last index first, then every other index
             unique_id: 1000 + i as u32 * 7 + r.below(7) as u32,
             position: f3(&mut r),
             rotation: f3(&mut r),
@@ -330,7 +346,7 @@ fn make_inputs(c: &Value, case: &str) -> Inputs {
         .collect();
     let modf = (0..gi(c, "nmodf"))
         .map(|i| WmoPlacement {
-            name_id: r.below(nw) as u32,
+            name_id: ((nw - 1 - (i as u64 % nw)) % nw) as u32,
             unique_id: 5000 + i as u32 * 11 + r.below(11) as u32,
             position: f3(&mut r),
             rotation: f3(&mut r),
@@ -542,6 +558,10 @@ fn sections(
     m.insert("wmo", dtok(&wmos));
     m.insert("ddf", dtok(&ddf));
     m.insert("modf", dtok(&modf));
+    // the name every placement resolves to through its name_id (index into the name list)
+    let res = |names: &[String], id: u32| names.get(id as usize).cloned().unwrap_or_else(|| format!("<index {id} out of range>"));
+    m.insert("ddfn", dtok(&ddf.iter().map(|p| res(models, p.name_id)).collect::<Vec<_>>()));
+    m.insert("modfn", dtok(&modf.iter().map(|p| res(wmos, p.name_id)).collect::<Vec<_>>()));
     m.insert("mfbo", dtok(mfbo));
     let pw = proj_mh2o(mh2o);
     m.insert("wins", tok(pw[0].as_bytes()));
@@ -611,7 +631,7 @@ fn sec_json(m: &BTreeMap<&'static str, String>) -> Value {
 }
 fn sec_empty() -> Value {
     let keys = [
-        "tex", "mdl", "wmo", "ddf", "modf", "mfbo", "wins", "wbm", "wvd", "wattr", "mtxf", "mamp", "mtxp", "bmesh", "khdr", "mcvt", "mcnr", "mcly", "mcrf", "mcal",
+        "tex", "mdl", "wmo", "ddf", "modf", "ddfn", "modfn", "mfbo", "wins", "wbm", "wvd", "wattr", "mtxf", "mamp", "mtxp", "bmesh", "khdr", "mcvt", "mcnr", "mcly", "mcrf", "mcal",
         "mcsh", "mccv", "mclq", "mcse", "mclv", "xsub", "mtxf0", "none",
     ];
     Value::Object(keys.iter().map(|k| (k.to_string(), Value::String("-".into()))).collect())
@@ -649,7 +669,7 @@ fn walk(b: &[u8], from: usize, to: usize, cap: usize) -> Vec<(String, usize, usi
     v
 }
 fn clamp(v: usize) -> i64 {
-    (v as u64).min(0x7fff_fff0) as i64
+    (v as u64).min(0x3fff_0000) as i64 // offset + 8 + size must stay below 2^31 in TLC
 }
 
 fn file_event(case: &str, round: usize, res: &str, bytes: Option<&[u8]>, lay: &Value) -> Value {
@@ -680,6 +700,31 @@ fn file_event(case: &str, round: usize, res: &str, bytes: Option<&[u8]>, lay: &V
             mcin.push(json!([clamp(o as usize), clamp(s as usize)]));
         }
     }
+    // name tables: start offset of every NUL-terminated name inside MMDX / MWMO and the u32 entries of MMID / MWID
+    let starts = |tag: &str| -> Vec<Value> {
+        let mut v = Vec::new();
+        if let Some((_, off, size)) = top.iter().find(|c| c.0 == tag) {
+            let pl = b.get(off + 8..(off + 8 + size).min(b.len())).unwrap_or(&[]);
+            let mut at_start = true;
+            for (i, ch) in pl.iter().enumerate() {
+                if at_start && *ch != 0 {
+                    v.push(json!(clamp(i)));
+                }
+                at_start = *ch == 0;
+            }
+        }
+        v
+    };
+    let words = |tag: &str| -> Vec<Value> {
+        let mut v = Vec::new();
+        if let Some((_, off, size)) = top.iter().find(|c| c.0 == tag) {
+            for j in 0..(size / 4).min(4096) {
+                v.push(json!(clamp(u32at(b, off + 8 + 4 * j).unwrap_or(0) as usize)));
+            }
+        }
+        v
+    };
+    let names_tab = json!({"mmdx": starts("MMDX"), "mmid": words("MMID"), "mwmo": starts("MWMO"), "mwid": words("MWID")});
     // MCNK containers: sub-chunk list relative to the MCNK header + the ofs_* fields of the fixed header
     let mut groups: Vec<(String, Value, Vec<usize>)> = Vec::new();
     let mut idx = 0usize;
@@ -713,7 +758,7 @@ fn file_event(case: &str, round: usize, res: &str, bytes: Option<&[u8]>, lay: &V
         .collect();
     json!({"ev":"File","case":case,"round":round,"res":res,"len":clamp(b.len()),"tok":tok(b),
            "top": top.iter().map(|(t,o,s)| json!([t, clamp(*o), clamp(*s)])).collect::<Vec<_>>(),
-           "mhdrData": mhdr_data, "mhdr": mhdr, "mcin": mcin, "groups": groups})
+           "mhdrData": mhdr_data, "mhdr": mhdr, "mcin": mcin, "groups": groups, "names": names_tab})
 }
 
 fn out_res<T, E: std::fmt::Debug>(o: &Outcome<Result<T, E>>) -> String {
@@ -797,6 +842,30 @@ fn run_case(ci: usize, c: &Value) -> Vec<Value> {
             }
         };
         evs.push(file_event(&case, round, "ok", Some(&bytes), lay));
+        if round == 0 {
+            // BuiltAdt::write_to_file (the only public byte producer besides to_bytes) onto a path that is
+            // absent / holds a shorter file / holds a longer file; the resulting FILE contents are logged
+            let sc = Scratch::new(&format!("c14w{ci}"));
+            for pre in ["absent", "shorter", "longer"] {
+                let path = sc.file(&format!("tile_{pre}.adt"));
+                match pre {
+                    "shorter" => std::fs::write(&path, vec![0xA5u8; (bytes.len() / 3).max(1)]).unwrap_or_else(|e| tool_error(&format!("prestate: {e}"))),
+                    "longer" => {
+                        let mut fill = Rng::derive(seed(), &format!("{case}:fill")).bytes(bytes.len() + 1000 + bytes.len() / 2);
+                        fill.iter_mut().for_each(|x| *x |= 1);
+                        std::fs::write(&path, fill).unwrap_or_else(|e| tool_error(&format!("prestate: {e}")))
+                    }
+                    _ => {}
+                }
+                let o = guarded(|| cur.write_to_file(&path));
+                let res = out_res(&o);
+                let content = std::fs::read(&path).unwrap_or_default();
+                let top = walk(&content, 0, content.len(), 600);
+                evs.push(json!({"ev":"Write","case":case,"round":round,"api":"write_to_file","pre":pre,"res":res,
+                    "len":clamp(content.len()),"tok":tok(&content),
+                    "top": top.iter().map(|(t,o,s)| json!([t, clamp(*o), clamp(*s)])).collect::<Vec<_>>()}));
+            }
+        }
         let (pev, root) = parse_event(&case, round, &bytes);
         evs.push(pev);
         let root = match root {
